@@ -50,6 +50,8 @@ pub struct ReqPlan {
     pub as_reader_calls: usize,
     pub finish: Finish,
     pub pre_delay_us: u64,
+    /// after this many ordinary reads, do one zero-length read (`read(&mut [])`)
+    pub zero_read_after: Option<usize>,
 }
 
 impl ReqPlan {
@@ -60,6 +62,7 @@ impl ReqPlan {
             as_reader_calls: 1,
             finish: Finish::Respond { status: 200, body_len: 10, declared: true, threshold: None, max_piece: 100000 },
             pre_delay_us: 0,
+            zero_read_after: None,
         }
     }
     pub fn finish_label(&self) -> &'static str {
@@ -216,6 +219,11 @@ fn read_body(plan: &ReqPlan, rd: &mut dyn FnMut(&mut [u8]) -> std::io::Result<us
         _ => usize::MAX,
     };
     loop {
+        if plan.zero_read_after == Some(i) {
+            let mut empty: [u8; 0] = [];
+            let r = rd(&mut empty);
+            reads.push((0, r.map(|n| n as i64).unwrap_or(-1)));
+        }
         let mut sz = plan.read_sizes[i % plan.read_sizes.len()].max(1);
         i += 1;
         if limit != usize::MAX {
@@ -556,8 +564,10 @@ impl CaseApp for ConvApp {
         }
         match &self.sched {
             Sched::Immediate => {
+                let key = self.port as u32;
                 spawn_named(&format!("h{}", k), move || {
                     let _f = Fin(fin);
+                    crate::alloc::set_key(key);
                     execute_plan(rq, &plan, &rec);
                 });
             }
@@ -729,6 +739,10 @@ pub fn run_conv(env: &Env, case: &ConvCase) -> ConvObs {
     };
     obs.client_local = client.local;
     obs.client_port = client.port;
+    if case.keep_read_track {
+        // per-connection allocation counters start from zero (ports are re-used over a run)
+        crate::alloc::key_reset(client.port);
+    }
     let fin = Arc::new(AtomicUsize::new(0));
     let app = Arc::new(ConvApp {
         port: client.port,
